@@ -32,6 +32,13 @@ def stage5 (t : Array U32) : Core :=
 theorem init_eq (seed : List U32) :
     init seed = { stage5 (stage4 (stage3 (stage2 (stage1 seed)))) with counter := 0 } := rfl
 
+theorem init_t (seed : List U32) :
+    (init seed).t = (stage5 (stage4 (stage3 (stage2 (stage1 seed))))).t := by
+  rw [init_eq]
+
+theorem init_counter (seed : List U32) : (init seed).counter = 0 := by
+  rw [init_eq]
+
 /-! ## stage 1: the seed words -/
 
 theorem foldl_wr : ∀ (l : List U32) (t : Array U32) (p : Nat), p + l.length ≤ t.size →
@@ -209,9 +216,8 @@ theorem init_refine (k0 k1 k2 k3 i0 i1 i2 i3 : U32) :
     Abs (init [k0, k1, k2, k3, i0, i1, i2, i3]).t
       (initState #v[k0, k1, k2, k3] #v[i0, i1, i2, i3]) ∧
     (init [k0, k1, k2, k3, i0, i1, i2, i3]).counter = 0 := by
-  have hi := init_eq [k0, k1, k2, k3, i0, i1, i2, i3]
-  rw [hi]
-  refine ⟨?_, rfl⟩
+  rw [init_t]
+  refine ⟨?_, init_counter _⟩
   obtain ⟨a1, a2⟩ := stage1_spec k0 k1 k2 k3 i0 i1 i2 i3
   obtain ⟨b1, b2⟩ := stage2_spec _ _ _ a1 a2
   obtain ⟨c1, c2⟩ := stage3_spec _ _ _ b1 b2
